@@ -71,4 +71,42 @@ def cleanupUploads (db : Db) (n : Nat) (kept : List (Nat × String)) : Except Er
     .ok { db with uploads := db.uploads.filter (ukeyIn kept) }
   else .error (.badChoice "cleanup_uploads: kept set is not a newest-first prefix of the right length")
 
+/-! ### histories: every database the library can produce -/
+
+/-- The state-changing public operations with their clock values and choices. -/
+inductive Op
+  | get (req : Req) (now : Nat) (ch : GetChoice)
+  | set (id : Nat) (desc : String) (now : Nat)
+  | del (id : Nat)
+  | cleanup (s : Space) (u : Sub) (maxIds : Nat) (removed : List Nat)
+  | mark (id : Nat) (term : String) (size time : Nat)
+  | cleanupUploads (n : Nat) (kept : List (Nat × String))
+deriving Repr, Inhabited
+
+def dbOf (db : Db) : Except Err Db → Db
+  | .ok db' => db'
+  | .error _ => db
+
+/-- One operation; an operation that raises (or whose choice is inadmissible) leaves the database
+    as it was — except `get_id`'s "no unused id" error, whose clean-ups persist (`getId` returns them).
+    `IDSpace(...)` / `IDSubspace(...)` raise on invalid arguments, so such a call never reaches the
+    database. -/
+def applyOp (cfg : Cfg) (db : Db) : Op → Db
+  | .get req now ch =>
+    if req.space.valid && req.sub.valid then
+      match getId cfg db req now ch with
+      | .ok (db', _, _) => db'
+      | .error _ => db
+    else db
+  | .set id d now => dbOf db (setId db id d now)
+  | .del id => dbOf db (delId db id)
+  | .cleanup s u m removed => if s.valid && u.valid then dbOf db (cleanup db s u m removed) else db
+  | .mark id term size time => dbOf db (markUploaded db id term size time)
+  | .cleanupUploads n kept => dbOf db (cleanupUploads db n kept)
+
+def run (cfg : Cfg) (ops : List Op) (db : Db) : Db := ops.foldl (applyOp cfg) db
+
+/-- `db` is reachable: some history of library operations from the empty database produced it. -/
+def Reachable (cfg : Cfg) (db : Db) : Prop := ∃ ops, run cfg ops Db.empty = db
+
 end Tup
